@@ -187,6 +187,9 @@ class CopiesKeepFilesValid(Contract):
                     failed = f"{type(exc).__name__}: {exc}"
                 del obj, parent
                 gc.collect()
+            if failed and case["kind"] != "root":
+                # every kind listed can be copied and clipped (the one-station base of a tipper survey is a legal partner)
+                return f"{_what(case)} was refused: {failed}"
             for label, path in (("source", src), ("target", dst)):
                 bad = wf_file(path)
                 if bad:
